@@ -305,7 +305,7 @@ def _enc_one(cat, f, x, k, kind=None):
         return inner
     if kind == "message":
         return spec_encode(cat, f.msg, x, Knobs(pad=k.pad))  # order/dup/inject knobs apply to the top level only
-    return sw.scalar_payload(kind, x)
+    return sw.scalar_payload(kind, x, k.pad)
 
 
 def _enc_field(cat, f, v, k, force=False):
@@ -320,7 +320,7 @@ def _enc_field(cat, f, v, k, force=False):
             for run in runs:
                 if not run and cut is None:
                     continue
-                payload = sw.cat(*[sw.scalar_payload(f.kind, x) for x in run])
+                payload = sw.cat(*[sw.scalar_payload(f.kind, x, pad) for x in run])
                 out = out + sw.len_field(f.number, payload, pad)
             return out
         out = SymBytes([])
@@ -328,7 +328,7 @@ def _enc_field(cat, f, v, k, force=False):
             if sw.wire_type(f.kind) == 2:
                 out = out + sw.len_field(f.number, _enc_one(cat, f, x, k), pad)
             else:
-                out = out + sw.tag(f.number, sw.wire_type(f.kind), pad) + sw.scalar_payload(f.kind, x)
+                out = out + sw.tag(f.number, sw.wire_type(f.kind), pad) + sw.scalar_payload(f.kind, x, pad)
         return out
     if f.label == "map":
         out = SymBytes([])
@@ -353,8 +353,8 @@ def _enc_field(cat, f, v, k, force=False):
     if not explicit and B(is_default(f.kind, v)):
         return SymBytes([])
     if sw.wire_type(f.kind) == 2:
-        return sw.len_field(f.number, sw.scalar_payload(f.kind, v), pad)
-    return sw.tag(f.number, sw.wire_type(f.kind), pad) + sw.scalar_payload(f.kind, v)
+        return sw.len_field(f.number, sw.scalar_payload(f.kind, v, pad), pad)
+    return sw.tag(f.number, sw.wire_type(f.kind), pad) + sw.scalar_payload(f.kind, v, pad)
 
 
 def spec_decode(cat, shape, buf, notes=None):
